@@ -4,8 +4,8 @@
 # Steps (in scratch workspace /tmp/ws-seed, /repo untouched): demo passes on HEAD; patch applies; pinned suite passes with patch;
 # demo fails with patch; then the given checks are run against HEAD+patch. Writes <seed dir>/eval.txt.
 SRC="$(readlink -f "$1")"; NAME="$2"; shift 2
-WS=/tmp/ws-seed
-/verif/scripts/agent_ws.sh seed >/dev/null || exit 2
+WSN=${SEED_WS:-seed}; WS=/tmp/ws-$WSN
+/verif/scripts/agent_ws.sh $WSN >/dev/null || exit 2
 HEAD=$(git -C /repo rev-parse ${SEED_BASE:-HEAD})   # SEED_BASE: evaluate against an older commit (a seed written before later fix commits touched the same lines)
 R=$WS/repo
 git -C $R reset -q --hard; git -C $R clean -qfd; git -C $R checkout -q --detach $HEAD || exit 2
@@ -13,20 +13,20 @@ OUT="$SRC/eval.txt"; : > "$OUT"
 log() { echo "$@" | tee -a "$OUT"; }
 log "seed=$NAME repo_head=$HEAD"
 cp "$SRC/demo.rs" $R/tests/demo_seed.rs
-( cd $R && cargo test --offline --test demo_seed >/tmp/seed-demo0.log 2>&1 ); D0=$?
+( cd $R && cargo test --offline --test demo_seed >/tmp/$WSN-demo0.log 2>&1 ); D0=$?
 log "demo on HEAD: exit=$D0 (expected 0)"
-if ! git -C $R apply "$SRC/patch.diff" 2>/tmp/seed-apply.log; then
-  if ! git -C $R apply --3way "$SRC/patch.diff" 2>>/tmp/seed-apply.log; then log "PATCH DOES NOT APPLY: $(head -3 /tmp/seed-apply.log | tr '\n' ' ')"; git -C $R reset -q --hard; git -C $R clean -qfd; exit 3; fi
+if ! git -C $R apply "$SRC/patch.diff" 2>/tmp/$WSN-apply.log; then
+  if ! git -C $R apply --3way "$SRC/patch.diff" 2>>/tmp/$WSN-apply.log; then log "PATCH DOES NOT APPLY: $(head -3 /tmp/$WSN-apply.log | tr '\n' ' ')"; git -C $R reset -q --hard; git -C $R clean -qfd; exit 3; fi
 fi
-( cd $R && cargo test --offline --test demo_seed >/tmp/seed-demo1.log 2>&1 ); D1=$?
+( cd $R && cargo test --offline --test demo_seed >/tmp/$WSN-demo1.log 2>&1 ); D1=$?
 log "demo with patch: exit=$D1 (expected non-zero)"
 rm -f $R/tests/demo_seed.rs
-( cd $R && cargo test --offline --no-fail-fast 2>&1 | grep -E "^test result|^test .* FAILED" > /tmp/seed-suite.log )
-FAILED=$(grep "FAILED" /tmp/seed-suite.log | grep -v test_write_include | tr '\n' ' ')
-log "pinned suite with patch: $(grep -c '^test result: ok' /tmp/seed-suite.log) ok binaries; failing tests other than the flaky one: [${FAILED}]"
-git -C $R diff HEAD > /tmp/seed-current.diff
+( cd $R && cargo test --offline --no-fail-fast 2>&1 | grep -E "^test result|^test .* FAILED" > /tmp/$WSN-suite.log )
+FAILED=$(grep "FAILED" /tmp/$WSN-suite.log | grep -v test_write_include | tr '\n' ' ')
+log "pinned suite with patch: $(grep -c '^test result: ok' /tmp/$WSN-suite.log) ok binaries; failing tests other than the flaky one: [${FAILED}]"
+git -C $R diff HEAD > /tmp/$WSN-current.diff
 git -C $R reset -q --hard ; git -C $R clean -qfd
 for P in "$@"; do
-  res=$(MUT_BASE=$HEAD MUT_ARGS="--tier quick" /verif/scripts/mutant_run.sh -w seed /tmp/seed-current.diff $P 2>&1 | tail -1 | cut -c1-330)
+  res=$(MUT_BASE=$HEAD MUT_ARGS="--tier quick" /verif/scripts/mutant_run.sh -w $WSN /tmp/$WSN-current.diff $P 2>&1 | tail -1 | cut -c1-330)
   log "check $res"
 done
